@@ -394,7 +394,7 @@ func (fc *fctx) compare(e *ast.BinaryExpr, kx kind) string {
 		k := fc.kind(x)
 		var s string
 		switch k {
-		case kErr, kParamPtr, kURLPtr, kUParamPtr:
+		case kErr, kParamPtr, kURLPtr, kUParamPtr, kSuiteI:
 			s = "(is_some " + fc.expr(x) + ")"
 		default:
 			t.fail(e, "comparison of %s with nil", fc.typeOf(x))
